@@ -11,6 +11,13 @@ nobody may be killed for that; then one worker is stopped - killed and replaced 
 Idle on a listener the master did not create itself: the launcher (the process that becomes the master) opens the listening
 socket in BLOCKING mode, as a socket-activating service manager does by default, and hands it over either the systemd way
 (descriptor 3, LISTEN_FDS / LISTEN_PID) or as `--bind fd://N`; one request, idle for 4 x timeout, one more request.
+Healthy workers with slow CLIENTS (client_paced; plain listener, TLS listener with do_handshake_on_connect off / on): two clients
+stop inside their TLS ClientHello / after it / inside their request head / right after connecting and stay silent for 3 x
+timeout while short requests of other clients go on (gthread, gevent, eventlet: one worker; it must be the same process
+afterwards, no WORKER TIMEOUT, and it answers every short request meanwhile); clients that pause twice for 0.2 x timeout,
+one after the other for 4 x timeout (every class, sync included).  Not included because the unchanged code does not beat
+there: clients silent for longer than the timeout on a sync worker (it waits for the one client it has), and on a gthread
+worker with do_handshake_on_connect (the handshake runs in its main loop).
 """
 import os
 import signal
@@ -114,7 +121,309 @@ def probe_loop(e4, srv, stop, log):
         time.sleep(0.1)
 
 
+# ---- healthy workers whose CLIENTS are slow or stall (the worker itself never hangs) -----------------------------------------
+
+HEAD = b"GET /pid HTTP/1.1\r\nHost: t\r\nConnection: close\r\n\r\n"
+
+
+def client_context():
+    import ssl
+    ctx = ssl.create_default_context()
+    ctx.check_hostname = False
+    ctx.verify_mode = ssl.CERT_NONE
+    return ctx
+
+
+class HandDrivenClient:
+    """One client connection, plain or TLS.  The TLS side is driven by hand over memory BIOs, so that the client can stop after
+    any byte of its handshake (or of its request) and go on later, as a slow, overloaded or half-dead peer does."""
+
+    def __init__(self, e4, addr, ctx):
+        import ssl
+        self.ssl = ssl
+        self.sock = e4.connect(addr, 8)
+        self.o = None
+        if ctx is not None:
+            self.inc, self.out = ssl.MemoryBIO(), ssl.MemoryBIO()
+            self.o = ctx.wrap_bio(self.inc, self.out, server_hostname="h")
+
+    def client_hello(self):
+        try:
+            self.o.do_handshake()
+        except self.ssl.SSLWantReadError:
+            pass
+        return self.out.read()
+
+    def _flush(self):
+        d = self.out.read()
+        if d:
+            self.sock.sendall(d)
+
+    def _step(self, fn, *a):
+        while True:
+            try:
+                r = fn(*a)
+            except self.ssl.SSLWantReadError:
+                self._flush()
+                d = self.sock.recv(65536)
+                if not d:
+                    raise ConnectionError("closed by the server")
+                self.inc.write(d)
+                continue
+            self._flush()
+            return r
+
+    def handshake(self):
+        if self.o is not None:
+            self._step(self.o.do_handshake)
+
+    def send(self, data):
+        if self.o is None:
+            self.sock.sendall(data)
+        else:
+            self._step(self.o.write, data)
+
+    def read_response(self, e4):
+        buf = b""
+        while not e4.complete_response(buf):
+            try:
+                d = self.sock.recv(65536) if self.o is None else self._step(self.o.read, 65536)
+            except (self.ssl.SSLZeroReturnError, self.ssl.SSLEOFError, ConnectionError):
+                break
+            if not d:
+                break
+            buf += d
+        return buf
+
+    def still_open(self):
+        """Has the server neither closed nor reset the TCP connection so far?"""
+        import socket
+        try:
+            self.sock.setblocking(False)
+            try:
+                return self.sock.recv(1, socket.MSG_PEEK) != b""
+            finally:
+                self.sock.settimeout(8)
+        except (BlockingIOError, InterruptedError):
+            return True
+        except OSError:
+            return False
+
+    def close(self):
+        try:
+            self.sock.close()
+        except OSError:
+            pass
+
+
+class PausingClient(HandDrivenClient):
+    """A client that sends its request in pieces: `where` names the byte at which it stops.
+    hello-cut: after the first n bytes of its TLS ClientHello; hello-sent: after the whole ClientHello (it never answers the
+    server's flight); head-cut: inside the request head (after the TLS handshake, if any); silent: right after connecting."""
+
+    def __init__(self, e4, addr, ctx, where, n=11):
+        HandDrivenClient.__init__(self, e4, addr, ctx)
+        self.e4, self.where, self.rest, self.sent_head = e4, where, b"", 0
+        self.n = n
+
+    def advance(self):
+        """Send up to the stopping point."""
+        if self.where in ("hello-cut", "hello-sent"):
+            hello = self.client_hello()
+            n = max(1, min(self.n, len(hello) - 1)) if self.where == "hello-cut" else len(hello)
+            self.sock.sendall(hello[:n])
+            self.rest = hello[n:]
+        elif self.where == "head-cut":
+            self.handshake()
+            self.sent_head = len(HEAD) // 2
+            self.send(HEAD[:self.sent_head])
+
+    def finish(self):
+        """Go on where the client stopped; the complete response, or what came of it."""
+        if self.rest:
+            self.sock.sendall(self.rest)
+            self.rest = b""
+        self.handshake()
+        self.send(HEAD[self.sent_head:])
+        return self.read_response(self.e4)
+
+
+def short_request(e4, addr, ctx, timeout=6.0):
+    """One short request on a fresh connection (inside TLS when ctx is given): (outcome, pid of the worker that answered)."""
+    import re
+    import socket
+    c = None
+    data = b""
+    try:
+        c = HandDrivenClient(e4, addr, ctx)
+        c.sock.settimeout(timeout)
+        c.handshake()
+        c.send(HEAD)
+        data = c.read_response(e4)
+        out = "ok" if e4.complete_response(data) else ("truncated" if data else "empty")
+    except socket.timeout:
+        out = "timeout"
+    except ConnectionRefusedError:
+        out = "refused"
+    except OSError as e:
+        out = "error %s" % type(e).__name__
+    finally:
+        if c is not None:
+            c.close()
+    m = re.search(rb"pid=(\d+)", e4.body_of(data)) if out == "ok" else None
+    return out, int(m.group(1)) if m else None
+
+
+STALLED_KINDS = ("healthy-stalled-tls-lazy", "healthy-stalled-tls-onconnect", "healthy-stalled-plain")
+SLOW_KINDS = ("healthy-slow-tls-lazy", "healthy-slow-tls-onconnect", "healthy-slow-plain")
+
+
+def client_paced(run, e4, sc):
+    """ONE healthy worker and clients that are slow.
+    healthy-stalled-*: two clients stop in the middle of their TLS handshake / request head and stay silent for 3 x timeout (a
+    worker class that serves connections concurrently), short requests of other clients go on meanwhile: the worker is the same
+    process afterwards, nothing in the log says WORKER TIMEOUT, and every short request was answered by it.
+    healthy-slow-*: one client after the other, each pausing twice for 0.2 x timeout (inside its ClientHello / before its
+    handshake is answered, and inside its request head), for 4 x timeout: every request is far shorter than the timeout.
+    -tls-lazy / -tls-onconnect: a TLS listener with do_handshake_on_connect off (default) / on; -plain: no TLS."""
+    import random
+    v = []
+    info = {}
+    wc, kind = sc["class"], sc["kind"]
+    rng = random.Random("%s/%s/%s" % (sc.get("seed", 0), wc, kind))
+    settings = {"timeout": TIMEOUT, "graceful_timeout": 2}
+    if wc == "gthread":
+        settings["threads"] = 4
+    tls = "-tls-" in kind
+    ctx = None
+    if tls:
+        from vlib import common
+        crt, key = os.path.join(common.REPO, "examples", "server.crt"), os.path.join(common.REPO, "examples", "server.key")
+        if not (os.path.exists(crt) and os.path.exists(key)):
+            return v, "example certificate not found in the tree", info
+        settings.update({"certfile": crt, "keyfile": key, "do_handshake_on_connect": kind.endswith("onconnect")})
+        ctx = client_context()
+    srv = e4.Server("c11", worker_class=wc, workers=1, settings=settings)
+    lag = e4.LagProbe()
+    lag.start()
+    clients = []
+    try:
+        srv.start()
+        w0 = srv.wait_workers(1, 25)
+        up = False
+        t1 = time.monotonic()
+        while w0 and not up and time.monotonic() - t1 < 10:
+            out, pid = short_request(e4, srv.addr, ctx)
+            up = out == "ok" and pid == w0[0]
+            if not up:
+                time.sleep(0.1)
+        if not w0 or not up:
+            return v, "server did not boot: %s" % srv.stderr()[-300:], info
+        t0 = time.monotonic()
+        answers = []
+        if kind in STALLED_KINDS:
+            first = ["hello-cut", "hello-sent"] if tls else ["head-cut"]
+            more = ["hello-cut", "hello-sent", "head-cut", "silent"] if tls else ["head-cut", "silent"]
+            wheres = [rng.choice(first), rng.choice(more)]
+            for i, w in enumerate(wheres):
+                try:
+                    c = PausingClient(e4, srv.addr, ctx, w, n=rng.choice([1, 3, 5, 6, 11, 60, 10 ** 6]))
+                    clients.append(c)
+                    c.advance()
+                except OSError as e:
+                    if i == 0:
+                        return v, "the first pausing client could not be set up: %r" % e, info
+                    # the second client may have to finish a handshake first, while the first one is silent already: that is one
+                    # of the short exchanges the worker has to go on serving
+                    answers.append(("error %s (handshake of the second pausing client)" % type(e).__name__, None))
+            info["clients_stop_at"] = ["%s%s" % (c.where, "/%d" % c.n if c.where == "hello-cut" else "") for c in clients]
+            t_s = time.monotonic()
+            while time.monotonic() - t_s < 3 * TIMEOUT:
+                answers.append(short_request(e4, srv.addr, ctx))
+                time.sleep(0.25)
+            info["stalled_for"] = round(time.monotonic() - t_s, 2)
+            info["stalled_connections_still_open"] = [c.still_open() for c in clients]
+            # not judged: what becomes of the slow clients when they go on at last
+            late = []
+            for c in clients:
+                try:
+                    late.append("ok" if e4.complete_response(c.finish()) else "no complete response")
+                except OSError as e:
+                    late.append(type(e).__name__)
+            info["slow_clients_going_on_afterwards"] = late
+        else:
+            pause = 0.2 * TIMEOUT
+            t_s = time.monotonic()
+            while time.monotonic() - t_s < 4 * TIMEOUT:
+                c = None
+                try:
+                    c = PausingClient(e4, srv.addr, ctx, rng.choice(["hello-cut", "hello-sent"]) if tls else "silent",
+                                      n=rng.choice([1, 5, 11, 60]))
+                    clients.append(c)
+                    c.advance()
+                    time.sleep(pause)
+                    c.where = "head-cut"
+                    if c.rest:
+                        c.sock.sendall(c.rest)
+                        c.rest = b""
+                    c.advance()
+                    time.sleep(pause)
+                    data = c.finish()
+                    m = __import__("re").search(rb"pid=(\d+)", e4.body_of(data))
+                    answers.append(("ok" if e4.complete_response(data) else ("truncated" if data else "empty"),
+                                    int(m.group(1)) if m else None))
+                except OSError as e:
+                    answers.append(("error %s" % type(e).__name__, None))
+                finally:
+                    if c is not None:
+                        c.close()
+        time.sleep(1.2)
+        maxlag = lag.max_lag(since=t0)
+        info["max_lag"] = round(maxlag, 3)
+        info["short_requests"] = "%d ok of %d" % (len([a for a in answers if a[0] == "ok"]), len(answers))
+        w1 = srv.worker_pids()
+        log = srv.error_log()
+        guard = 0.5 if kind in STALLED_KINDS else 0.25
+        if "WORKER TIMEOUT" in log or set(w1) != set(w0):
+            if maxlag > guard:
+                return v, "healthy worker killed but scheduling lag was %.2f s" % maxlag, info
+            v.append(("healthy-worker-killed/" + kind, "%s, one worker, %s: worker set changed %s -> %s, WORKER TIMEOUT in log: %s "
+                      "(timeout %d s); the application was never busy for longer than a few milliseconds" % (
+                          wc, "clients stopped at %s and stayed silent for %s s while short requests went on" % (
+                              info["clients_stop_at"], info["stalled_for"]) if kind in STALLED_KINDS else
+                          "one client after the other, each pausing twice for %.1f s" % (0.2 * TIMEOUT),
+                          w0, w1, "WORKER TIMEOUT" in log, TIMEOUT)))
+        else:
+            run.count("live_healthy_checks")
+            run.count("live_client_paced_checks")
+            if kind in STALLED_KINDS and tls and clients[0].where in ("hello-cut", "hello-sent"):
+                run.count("live_stalled_tls_handshake_checks")
+            if kind in SLOW_KINDS:
+                run.count("live_slow_client_checks")
+        bad = [a for a in answers if a[0] != "ok" or a[1] != w0[0]]
+        if not answers:
+            return v, "no short request was made", info
+        if bad:
+            if maxlag > guard and not v:
+                return v, "short requests failed but scheduling lag was %.2f s" % maxlag, info
+            v.append(("healthy-worker-not-serving-while-clients-are-slow/" + kind,
+                      "%s, one worker %s (timeout %d s): %d of %d short requests were not answered by it within 6 s while %s: %s" % (
+                          wc, w0, TIMEOUT, len(bad), len(answers),
+                          "two other clients stopped at %s" % info["clients_stop_at"] if kind in STALLED_KINDS else
+                          "each client paused twice for %.1f s" % (0.2 * TIMEOUT), bad[:4])))
+        elif not v:
+            run.count("live_client_paced_serving_checks")
+        return v, None, info
+    finally:
+        lag.stop_flag = True
+        for c in clients:
+            c.close()
+        srv.cleanup()
+
+
 def scenario(run, e4, sc):
+    if sc["kind"] in STALLED_KINDS + SLOW_KINDS:
+        return client_paced(run, e4, sc)
     v = []
     info = {}
     wc = sc["class"]
@@ -397,7 +706,8 @@ def scenario(run, e4, sc):
 def plan(run, tier, seed):
     run.require("live_healthy_checks", "live_hung_worker_killed", "live_replacement_checks", "live_probe_checks",
                 "live_inherited_blocking_listener_checks", "live_bystander_checks", "live_master_pause_established",
-                "live_hung_worker_killed_after_master_pause")
+                "live_hung_worker_killed_after_master_pause", "live_client_paced_checks", "live_stalled_tls_handshake_checks",
+                "live_slow_client_checks", "live_client_paced_serving_checks")
     cells = [("sync", "block"), ("sync", "block-ignabrt"), ("sync", "stop"), ("gthread", "stop"), ("gevent", "busy"),
              ("eventlet", "busy"), ("gevent", "stop"), ("eventlet", "stop"),
              ("sync", "healthy-idle"), ("gthread", "healthy-idle"), ("gevent", "healthy-idle"), ("eventlet", "healthy-idle"),
@@ -439,6 +749,20 @@ def plan(run, tier, seed):
     first = [{"kind": "live", "scenario": {"class": c, "kind": "stop-after-master-pause", "idx": 1000 + j, "seed": seed, "workers": 3,
                                            "victim": ["youngest", "middle"][(seed + j) % 2]}, "seed": seed, "tier": tier}
              for j, c in enumerate(paused)]
+    # healthy workers with slow clients.  Clients that stall for longer than the timeout: the classes that serve connections
+    # concurrently (a sync worker handles one connection at a time and waits for that client: whether that is a hang is not
+    # decided here); gthread with do_handshake_on_connect does the handshake in its main loop and is left out for the same
+    # reason.  Clients that are slow but take far less than the timeout: every class.
+    conc = ["gthread", "gevent", "eventlet"]
+    paced = [(c, k) for c in conc for k in STALLED_KINDS if (c, k) != ("gthread", "healthy-stalled-tls-onconnect")] + \
+            [(c, k) for c in classes for k in SLOW_KINDS]
+    if tier == "quick":
+        paced = [("gthread", "healthy-stalled-tls-lazy"),
+                 (["gevent", "eventlet"][seed % 2], STALLED_KINDS[(seed // 2) % 2]),
+                 (conc[(seed + 1) % 3], "healthy-stalled-plain"),
+                 ("sync", SLOW_KINDS[seed % 3])]
+    first += [{"kind": "live", "scenario": {"class": c, "kind": k, "idx": 2000 + j, "seed": seed}, "seed": seed, "tier": tier}
+              for j, (c, k) in enumerate(paced)]
     # (started first: they take 4 x timeout + boot each and would otherwise be the tail of the run)
     return first + [{"kind": "live", "scenario": {"class": c, "kind": k, "idx": len(out) + j, "seed": seed, "bind": binds[(c, k)]},
              "seed": seed, "tier": tier} for j, (c, k) in enumerate(inherited)] + out
